@@ -53,3 +53,13 @@ pub fn rule_with(cond: &str, key: &str, value: serde_yaml::Value) -> serde_yaml:
     m.insert("true_negatives".into(), Y::Sequence(vec![]));
     Y::Mapping(m)
 }
+
+/// The property bounds nesting depth by 64 (native stack exhaustion is out of scope): inputs that
+/// could nest deeper are not fed to the engine. Counting openers bounds the depth from above.
+pub fn nesting_in_scope(text: &str) -> bool {
+    let openers = text.bytes().filter(|b| matches!(b, b'(' | b'[' | b'{')).count();
+    let nots = text.matches("not").count();
+    // indentation-based YAML nesting: deepest indentation in units of one space
+    let indent = text.lines().map(|l| l.len() - l.trim_start_matches([' ', '-']).len()).max().unwrap_or(0);
+    openers <= 64 && nots <= 64 && indent <= 64
+}
